@@ -292,7 +292,7 @@ def run_vector(vec, emb, pool, eid, recv=None, arg=None):
         "id": eid, "op": vec["op"], "args": vec["args"], "pre": pre, "arg": argpre,
         "st": st, "pe": pe, "ret": pj.tier(rettier), "post": pj.tier(recv),
         "argpost": pj.tier(arg) if arg is not None else NONE,
-        "out": buf.getvalue() != "", "arith": True,
+        "out": buf.getvalue() != "", "arith": True, "exactfp": emb.dyadic,
         "rawwf": raw_wf(rettier) and raw_wf(recv),
         "validok": validate_agrees(rettier) and validate_agrees(recv),
         "offgrid": 0, "emb": emb.name,
